@@ -87,9 +87,7 @@ mod verif_order {
             i += 1;
         }
         kani::cover!(true, "duplicate-free in-range request exists");
-        if M >= 2 {
-            kani::cover!(req[0] > req[1], "request that contradicts the current order exists");
-        }
+        kani::cover!(M < 2 || req[0] > req[1], "request that contradicts the current order exists");
         req
     }
 
@@ -117,9 +115,7 @@ mod verif_order {
         let q: [u32; N] = kani::any();
         kani::assume(is_perm(&q) && respects(&q, &req, M));
         kani::cover!(true, "a competing completion exists");
-        if M < N {
-            kani::cover!(inversions(&q) > inversions(&r), "a strictly worse completion exists");
-        }
+        kani::cover!(M >= N || inversions(&q) > inversions(&r), "a strictly worse completion exists (if the request is partial)");
         assert!(inversions(&r) <= inversions(&q));
     }
 
